@@ -21,7 +21,9 @@ CONSTANTS Kinds,        \* column kinds (records: name, optional-capable, dictab
           RgSplits,     \* maximum number of row groups
           PageSplits,   \* maximum pages per chunk
           Versions, Encodings, DefRunStyles, IndexRunStyles, IndexWidthStyles, Codecs, CompressedFlags, Creators,
-          StatsChoices, \* chunk statistics the writer records: "absent" | "exact" (min, max, null_count; readers take short cuts on them)
+          StatsChoices, \* chunk statistics the writer records: "absent" | "exact" (min_value / max_value, the deprecated
+                        \* min / max where the two orders agree, null_count; readers take short cuts on them) | "new"
+                        \* (min_value / max_value and null_count only, as current writers do for text)
           DictPads      \* numbers of UNUSED entries a writer may put in front of the used ones in a dictionary page
 
 NULL == -1
